@@ -7,6 +7,7 @@ import (
 	"net/http/httptest"
 	"strings"
 	"sync"
+	"time"
 )
 
 // Answer is one scripted answer of the fake authenticator (sso-auth as seen by
@@ -46,6 +47,23 @@ type FakeAuth struct {
 	mu     sync.Mutex
 	script map[string]Answer
 	calls  []Call
+	// optional refinements (zero values = off)
+	profileByGroups map[string]Answer // answer of /profile keyed by the "groups" parameter
+	delay           time.Duration     // every back-channel call is held this long (widens overlaps)
+}
+
+// ScriptProfileByGroups makes /profile answer by the question's groups parameter (falls back to the script).
+func (fa *FakeAuth) ScriptProfileByGroups(m map[string]Answer) {
+	fa.mu.Lock()
+	fa.profileByGroups = m
+	fa.mu.Unlock()
+}
+
+// SetDelay holds every call for d before answering.
+func (fa *FakeAuth) SetDelay(d time.Duration) {
+	fa.mu.Lock()
+	fa.delay = d
+	fa.mu.Unlock()
 }
 
 // NewFakeAuth starts the server.
@@ -116,7 +134,16 @@ func (fa *FakeAuth) serve(w http.ResponseWriter, r *http.Request) {
 	fa.mu.Lock()
 	fa.calls = append(fa.calls, c)
 	a, ok := fa.script[ep]
+	if ep == "profile" && fa.profileByGroups != nil {
+		if pa, has := fa.profileByGroups[c.Groups]; has {
+			a, ok = pa, true
+		}
+	}
+	d := fa.delay
 	fa.mu.Unlock()
+	if d > 0 {
+		time.Sleep(d)
+	}
 	if !ok {
 		a = Answer{Class: "s500"}
 	}
